@@ -45,3 +45,18 @@ func VerifResetQueues() {
 	flushMemTablesQueue = bg.NewQueue(5)
 	compactionQueue = bg.NewQueue(5)
 }
+
+// VerifQueues is a saved pair of the process-global task queues.
+type VerifQueues struct{ f, c *bg.TaskQueue }
+
+// VerifFreshQueues installs fresh global task queues and returns the previous pair: a probe
+// database opened meanwhile does not queue behind (deliberately held) tasks of another one.
+func VerifFreshQueues() VerifQueues {
+	old := VerifQueues{flushMemTablesQueue, compactionQueue}
+	flushMemTablesQueue = bg.NewQueue(5)
+	compactionQueue = bg.NewQueue(5)
+	return old
+}
+
+// VerifRestoreQueues puts a saved pair back.
+func VerifRestoreQueues(q VerifQueues) { flushMemTablesQueue, compactionQueue = q.f, q.c }
